@@ -5,6 +5,7 @@ import (
 	"io"
 	"log"
 	"math/rand/v2"
+	"strings"
 
 	"github.com/hneemann/parser2"
 	"github.com/hneemann/parser2/funcGen"
@@ -179,3 +180,9 @@ func evalRealNoForce(f funcGen.Func[value.Value], args []value.Value) (o bridge.
 	v, err := f.Eval(args...)
 	return bridge.Outcome{Val: v, Err: err}
 }
+
+// regroupTol: the optimizer may regroup the constant operands of '*' (the only operator the value language
+// declares commutative), which changes float results in the last places; C02 states this tolerance, and every
+// comparison of an optimised program with the reference model grants it (relative 1e-12) when the program
+// multiplies at all.
+func regroupTol(optimizer bool, src string) bool { return optimizer && strings.Contains(src, "*") }
